@@ -1870,11 +1870,28 @@ class StrOf:
         self.v = v
 
 
+class Formatted:
+    """format(number, spec) / '%.6f' % number: a decimal text with a FIXED number of digits - lossy"""
+
+    def __init__(self, v, spec):
+        self.v, self.spec = v, spec
+
+
+def _b_format(it, args, kw):
+    v = args[0] if args else ""
+    spec = args[1] if len(args) > 1 else ""
+    if is_num(v):
+        return Formatted(v, spec)
+    if isinstance(v, str) and not spec:
+        return v
+    return Unknown("format")
+
+
 BUILTINS: Dict[str, Any] = {k: BoundBuiltin(v) for k, v in {
     "abs": _b_abs, "min": _minmax("min"), "max": _minmax("max"), "len": _b_len, "sorted": _b_sorted,
     "range": _b_range, "enumerate": _b_enumerate, "zip": _b_zip, "int": _b_int, "float": _b_float,
     "round": _b_round, "bool": _b_bool, "isinstance": _b_isinstance, "sum": _b_sum, "any": _b_any,
-    "all": _b_all, "list": _b_list, "tuple": _b_tuple, "dict": _b_dict, "set": _b_set, "str": _b_str,
+    "all": _b_all, "list": _b_list, "tuple": _b_tuple, "dict": _b_dict, "set": _b_set, "str": _b_str, "format": _b_format,
     "type": _b_type, "filter": _b_filter, "reversed": _b_reversed, "print": _b_print,
     "getattr": _b_getattr, "setattr": _b_setattr, "hasattr": _b_hasattr, "ord": _b_ord, "chr": _b_chr,
 }.items()}
@@ -2030,8 +2047,13 @@ def _np_array(it: Interp, args, kw):
 def _decimal(it, args, kw):
     v = args[0]
     if isinstance(v, StrOf):
+        it.event("decimal", "str", v.v)
         return v.v
+    if isinstance(v, Formatted):
+        it.event("decimal", f"format(., {v.spec!r})", v.v)
+        return Unknown("Decimal(format)")
     if is_num(v):
+        it.event("decimal", "binary-float", v)
         return v
     if isinstance(v, str):
         try:
